@@ -90,6 +90,8 @@ def mon_c02(run):
             if rel is None or tm < rel:
                 bad.append("task %s started at %s before its release time %s" % (t, tm, rel))
             ti = info.get(t)
+            if ti is not None and ti["release"] is not None and ti["release"] >= 0 and tm < ti["release"]:
+                bad.append("task %s started at %s before the release time %s its graph was created with" % (t, tm, ti["release"]))
             if ti is None:
                 bad.append("task %s started but belongs to no announced graph" % t)
                 continue
@@ -233,6 +235,20 @@ def mon_c06(run):
                     if not ci["terminal"] and state.get(c) not in ("CANCELLED",) and c not in e[3]:
                         if state.get(c) in ("VIRTUAL", "RELEASED", "SCHEDULED"):
                             bad.append("task %s was cancelled but its child %s stays %s" % (t, c, state.get(c)))
+    # cancellation is closed downstream (at the end of the run): a regular child of a cancelled task is cancelled,
+    # a terminal child is cancelled when all its parents are
+    if run["status"] == "ended":
+        for t, ti in info.items():
+            if state.get(t) != "CANCELLED":
+                continue
+            for c in ti["children"]:
+                ci = info.get(c)
+                if ci is None or state.get(c) == "CANCELLED":
+                    continue
+                if not ci["terminal"]:
+                    bad.append("task %s is cancelled but its child %s ended the run %s" % (t, c, state.get(c)))
+                elif all(state.get(p) == "CANCELLED" for p in ci["parents"]):
+                    bad.append("every parent of the join %s is cancelled but it ended the run %s" % (c, state.get(c)))
     # a graph is reported finished exactly when all its sinks completed
     sinks = {}
     for t, ti in info.items():
